@@ -1781,3 +1781,36 @@ def register_misc3(E):
 _old_register_all9=register_all
 def register_all(E):
     _old_register_all9(E); register_misc3(E)
+def _first_generic(f,meth):
+    m=re.search(r'::'+meth+r'::<(.*)>$',f)
+    if not m: return 'Vec'
+    from .parse import split_top
+    t=split_top(m.group(1))[0].strip()
+    for k in ('HashMap','BTreeMap','HashSet','BTreeSet','Vec','String'):
+        if re.match(r'^(std::collections::|std::vec::|std::string::)?'+k+r'\b',t): return k
+    raise Unsupported(meth+' into '+t)
+def m_iter_partition(e,run,a,f):
+    kind=_first_generic(f,'partition'); yes=[]; no=[]
+    for x in drain(e,run,to_iter(e,run,a[0])):
+        (yes if run.branch_bool(e.call_value(run,a[1],[Ref(Cell(x))]),'partition') else no).append(x)
+    return Agg('()',[collect_into(e,run,kind,yes),collect_into(e,run,kind,no)])
+def m_iter_unzip(e,run,a,f):
+    xs=drain(e,run,to_iter(e,run,a[0]))
+    return Agg('()',[VecO([x.f[0] for x in xs]),VecO([x.f[1] for x in xs])])
+def register_misc4(E):
+    E.model(r' as Iterator>::partition$',m_iter_partition); E.model(r' as Iterator>::unzip$',m_iter_unzip)
+_old_register_all10=register_all
+def register_all(E):
+    _old_register_all10(E); register_misc4(E)
+def m_box_as_ref(e,run,a,f):
+    b=deref_once(a[0]); return b if isinstance(b,Ref) else a[0]
+def deref_once(v): return v.get() if isinstance(v,Ref) else v
+def register_misc5(E):
+    M=E.model
+    M(r'^<Box<.*> as AsRef<.*>>::as_ref$',m_box_as_ref); M(r'^<Box<.*> as AsMut<.*>>::as_mut$',m_box_as_ref)
+    M(r'^<Box<.*> as Deref>::deref$',m_box_as_ref); M(r'^<Box<.*> as DerefMut>::deref_mut$',m_box_as_ref)
+    M(r'^<Box<.*> as Borrow<.*>>::borrow$',m_box_as_ref)
+    M(r'^<(Rc|Arc)<.*> as Deref>::deref$',m_box_as_ref); M(r'^(Rc|Arc)::new$',m_box_new)
+_old_register_all11=register_all
+def register_all(E):
+    _old_register_all11(E); register_misc5(E)
